@@ -27,3 +27,39 @@ let eval_h (line : string) : string =
   | _ -> failwith "EVAL: bad case"
 
 let () = Reg.register "EVAL" eval_h
+
+(* CACHE: FENs separated by " ;; " evaluated in order through the cache, from an empty cache *)
+let cache_gen evalf (line : string) : string =
+  let cache = ref [] in
+  let outs = List.map (fun fen ->
+    match m_new_from_fen (bytes_of_string (String.trim fen)) with
+    | Err -> "badfen" | Panic -> "panic"
+    | Ok p ->
+      (match evalf !cache p with
+       | Ok (s, c) -> cache := c; string_of_int (int_of_z s)
+       | Err -> "err" | Panic -> "panic")) (split_on_str " ;; " line) in
+  String.concat " " outs
+
+let () = Reg.register "CACHE" (cache_gen m_eval_cached)
+let () = Reg.register "CACHE-unrepaired" (cache_gen m_eval_cached_unrepaired)
+
+(* SEE: a FEN; "move=value" for each legal non-en-passant capture in generation order *)
+let see_h (line : string) : string =
+  match m_new_from_fen (bytes_of_string (String.trim line)) with
+  | Err -> "badfen" | Panic -> "panic"
+  | Ok p ->
+    (match m_legal_moves p with
+     | Ok l ->
+       let items = List.filter_map (fun m ->
+         let kind = (int_of_n m lsr 12) land 3 in
+         let dst = (int_of_n m lsr 6) land 63 in
+         let occupied = (match List.nth_opt p.board dst with Some x -> int_of_n x <> 0 | None -> false) in
+         if kind = 2 || not occupied then None
+         else
+           let v = match m_see p m with Ok v -> string_of_int (int_of_z v) | Err -> "err" | Panic -> "panic" in
+           Some (cls (move_to_string m) string_of_bytes ^ "=" ^ v)) l in
+       if List.exists (fun s -> String.length s >= 5 && String.sub s (String.length s - 5) 5 = "panic") items then "panic"
+       else String.concat " " items
+     | Err -> "err" | Panic -> "panic")
+
+let () = Reg.register "SEE" see_h
